@@ -597,3 +597,16 @@ Example C07_l2tp_lns_nonvacuous :
     map lns_toks st = [[TN 1; TN 1; TN 4242; TN 2; TN 0]; [TN 1; TN 1; TN 4242; TN 3; TN 0]].
 Proof. exact lns_nonvacuous. Qed.
 Print Assumptions C07_l2tp_lns_nonvacuous.
+
+(* ---- PPPoE AC-Cookie validation (pkg/pppoe/cookie.go, fed by the subscriber's PADR) and the L2TP challenge response
+   (pkg/l2tp/challenge.go, fed by the peer's SCCRP / SCCCN) ---- *)
+Theorem C07_pppoe_cookie_total : forall cookie d fresh, is_crash (cookie_validate cookie d fresh) = false.
+Proof. exact cookie_validate_total. Qed.
+Print Assumptions C07_pppoe_cookie_total.
+Theorem C07_pppoe_cookie_sound : forall cookie d fresh, cookie_validate cookie d fresh = Ok true ->
+  lenN cookie = 36 /\ fresh = true /\ sl 0 32 cookie = Ok d.
+Proof. exact cookie_validate_sound. Qed.
+Print Assumptions C07_pppoe_cookie_sound.
+Theorem C07_l2tp_challenge_response_total : forall observed d, is_crash (verify_challenge observed d) = false.
+Proof. exact verify_challenge_total. Qed.
+Print Assumptions C07_l2tp_challenge_response_total.
